@@ -180,7 +180,7 @@ impl Prop for C15 {
                     _ => false,
                 });
                 if bad || !f32_params_ok(&sc.trees[0]) {
-                    out.invalid = Some("f32 mode needs magnitudes in {0} u [1e-6, 1e7] and an ALMA sigma <= 6".into());
+                    out.invalid = Some("f32 mode needs magnitudes in {0} u [1e-6, 1e7], an ALMA sigma <= 6, and LnReturn/Drawdown directly over the stream".into());
                     return out;
                 }
                 out.stats.hit("reach.instantiated_at_f32");
@@ -190,7 +190,7 @@ impl Prop for C15 {
         }
     }
     fn rule(&self) -> String {
-        "Run i<S1 enumerates every wrapper (32 unary views + PFE + EFT) alone at every N in the tier's list (quick: 1..9,16,33,64; thorough: 1..64) under each of the 14 workload shapes; the next block enumerates every ordered pair of wrappers as a two-level chain at several (N_outer,N_inner); the remaining runs are random trees (depth 2-3, combinators, stalled leaves). Everything else (secondary parameters, stall length, magnitude scale in {0} u [1e-3,1e6], stream length 1..600 (0.3% long: 4.2k-1.1M; thorough: a further slice up to 10^4), last() before the first update, repeated last(), clone and drop points) is drawn from the run's PRNG. A case is the pair (topology+parameters, event-kind schedule); distinct = distinct hash of that pair; non-trivial = a stall, an early or repeated last(), a clone or a drop fired and at least one delivery executed after it. The whole batch is executed by two builds of the same harness: debug assertions + overflow checks on, and both off. One run in eight (where the feed's magnitudes are 0 or within [1e-6,1e7] and a custom ALMA has sigma <= 6) executes the library's generic code instantiated at f32 instead of f64; the oracles are the same."
+        "Run i<S1 enumerates every wrapper (32 unary views + PFE + EFT) alone at every N in the tier's list (quick: 1..9,16,33,64; thorough: 1..64) under each of the 14 workload shapes; the next block enumerates every ordered pair of wrappers as a two-level chain at several (N_outer,N_inner); the remaining runs are random trees (depth 2-3, combinators, stalled leaves). Everything else (secondary parameters, stall length, magnitude scale in {0} u [1e-3,1e6], stream length 1..600 (0.3% long: 4.2k-1.1M; thorough: a further slice up to 10^4), last() before the first update, repeated last(), clone and drop points) is drawn from the run's PRNG. A case is the pair (topology+parameters, event-kind schedule); distinct = distinct hash of that pair; non-trivial = a stall, an early or repeated last(), a clone or a drop fired and at least one delivery executed after it. The whole batch is executed by two builds of the same harness: debug assertions + overflow checks on, and both off. One run in eight (where the feed's magnitudes are 0 or within [1e-6,1e7] a custom ALMA has sigma <= 6, LnReturn and Drawdown sit directly on the stream and there is no Divide) executes the library's generic code instantiated at f32 instead of f64; the oracles are the same."
             .into()
     }
     fn assumptions(&self) -> Vec<String> {
@@ -198,7 +198,7 @@ impl Prop for C15 {
             "inputs are finite, of magnitude 0 or within [1e-3,1e7], positive where the tree contains Drawdown/LnReturn, and divisor positions hold positivity-preserving subtrees".into(),
             "a constructor that panics (rejects its arguments) is not a violation: the property is about constructed views".into(),
             "moderate magnitude holds for every node of a chain: a panic is not a finding when the panicking node had been fed a value beyond 1e100 by its own child; counted under skipped.immoderate_intermediate_magnitude".into(),
-            "f32 runs: a custom ALMA keeps sigma <= 6 (the library's default): with a narrower Gaussian the weight of the first sample underflows to zero in f32 and the average is 0/0, exactly as it is in f64 beyond sigma ~ 27 - a limit of the parameter range, not of the call schedule; a value beyond 1e15 fed to a node by its own child counts as immoderate there (1e100 in f64)".into(),
+            "f32 runs: a custom ALMA keeps sigma <= 6 (the library's default): with a narrower Gaussian the weight of the first sample underflows to zero in f32 and the average is 0/0, exactly as it is in f64 beyond sigma ~ 27 - a limit of the parameter range, not of the call schedule; LnReturn/Drawdown only directly over the (positive) stream and no Divide, because 'an average of positive values is positive' does not survive f32 rounding of a running sum at a dynamic range of 1e6 (accuracy: C16); a value beyond 1e15 fed to a node by its own child counts as immoderate there (1e100 in f64)".into(),
             "secondary parameters stay in their documented ranges (gamma in [0,1), Ema weight alpha/(N+1) in (0,1], Alma sigma>0, offset in [0,1])".into(),
         ]
     }
@@ -356,9 +356,17 @@ fn run_calls<T: crate::dynview::Scalar>(sc: &Scenario, mut out: RunOut, node_lim
         out
 }
 
-/// Secondary parameters admissible at f32: a custom ALMA's Gaussian must not be so narrow that the weight of the
-/// first sample, exp(-((N+1)*offset*sigma/N)^2/2), underflows to zero (f64: sigma <= 10 keeps the exponent above
-/// -200 for every N; f32 underflows below -103, which sigma <= 6, the library's default, avoids for every N)
+/// Trees admissible at f32. (1) A custom ALMA's Gaussian must not be so narrow that the weight of the first
+/// sample, exp(-((N+1)*offset*sigma/N)^2/2), underflows to zero (f64: sigma <= 10 keeps the exponent above -200
+/// for every N; f32 underflows below -103, which sigma <= 6, the library's default, avoids for every N).
+/// (2) The domain analysis "a moving average / extremum / sum of positive values is positive" is a fact about real
+/// numbers that f64 keeps at the magnitudes fed here and f32 does not: the running sum of an Sma over values that
+/// fall from 4e6 to 1 keeps a rounding residue of order 1 and can come out as 0 or below, which puts a LnReturn
+/// above it outside its domain (accuracy of a running sum: C16's subject, not a readiness or crash matter). So at
+/// f32 the views that need positive input sit directly on the (positive) stream, and there is no divisor subtree.
 pub fn f32_params_ok(tree: &Spec) -> bool {
-    !tree.any(&|s| s.k == K::AlmaCustom && s.p > 6.0)
+    fn leaf_like(s: &Spec) -> bool {
+        matches!(s.k, K::Echo | K::Probe) || (s.k == K::Stall && matches!(s.kids[0].k, K::Echo | K::Probe))
+    }
+    !tree.any(&|s| (s.k == K::AlmaCustom && s.p > 6.0) || s.k == K::Div || (matches!(s.k, K::LnReturn | K::Drawdown) && !leaf_like(&s.kids[0])))
 }
